@@ -250,6 +250,8 @@ def factors(v):
             continue
         elif e[0] == "mult" and e[1] == 1:
             continue
+        elif e[0] in ("mult", "rmult") and isinstance(e[1], (int, float)) and not isinstance(e[1], bool):
+            out.append(f"the constant {e[1]!r}")  # a numeric factor other than 1 scales the metric
         else:
             return None
     return sorted(out)
